@@ -106,6 +106,7 @@ func (s c10snap) sexp() string {
 }
 
 func c10(g *Gen) {
+	defer c10viaArgs(g)
 	work := os.Getenv("VERIF_WORK")
 	n := g.N(60, 1500)
 	for i := 0; i < n; i++ {
